@@ -621,6 +621,62 @@ def replay_witnesses(check):
                             case={"alpha": MULTI_A, "beta": MULTI_B, "prefix": "OP"}, impl=a, failing_input=True)
 
 
+def multi_part(check):
+    """multi-file mode: the same Rust type name is defined in two or three crates, each with its own serde(rename) (or none);
+    every crate refers to its *own* type.  The rename table is keyed by (original name, crate): each module must spell the
+    reference with the name its own definition is emitted under."""
+    rng = check.rng
+    g = Gen(rng)
+    ts = [m_path("typeshare")]
+    ncases = 60 if check.thorough else 12
+    mreqs, rreqs, meta = [], [], []
+    for k in range(ncases):
+        base = rng.choice(["Error", "Config", "Item", "State"])
+        crates = rng.sample(["alpha", "beta", "gamma", "net", "storage"], rng.randint(2, 3))
+        plan = {}
+        jobs = []
+        for c in crates:
+            new = None if rng.random() < 0.25 else c.capitalize() + base
+            plan[c] = new
+            attrs = list(ts) + ([m_list("serde", [m_nv("rename", lit_s(new))])] if new else [])
+            user = c.capitalize() + "User"
+            f = {"attrs": [], "items": [
+                {"kind": "struct", "attrs": attrs, "ident": base, "generics": [], "fields": ("named", [field([], "code", t_path("u8"))])},
+                {"kind": "struct", "attrs": list(ts), "ident": user, "generics": [],
+                 "fields": ("named", [field([], "one", t_path(base)), field([], "many", t_path("Vec", [t_path(base)])),
+                                      field([], "maybe", t_path("Option", [t_path(base)]))])}]}
+            jobs.append({"crate": c, "file_name": c + ".out", "path": "%s/src/lib.rs" % c, "file": f})
+        for lang in LANGS:
+            m, r, texts = l2.requests(lang, cfg_of(lang, ""), jobs, g, multi_file=True)
+            mreqs.append(m)
+            rreqs.append(r)
+            meta.append((lang, base, plan, texts))
+    mans = [l2.norm(a) for a in model(mreqs)]
+    rans = [l2.norm(a) for a in runner(rreqs)]
+    mismatch = None
+    for (lang, base, plan, texts), ma, ra in zip(meta, mans, rans):
+        check.saw(("multi", lang, base, json.dumps(plan, sort_keys=True)), nontrivial=sum(1 for v in plan.values() if v) >= 2)
+        check.count("multi-crate-same-name-" + lang)
+        if "ok" in ra:
+            for c, new in plan.items():
+                text = ra["ok"].get(c, "")
+                defined = new or base
+                if not re.search(r"\b%s\b" % re.escape(defined), text):
+                    continue
+                other = base if new else None
+                if other and re.search(r"\b%s\b" % re.escape(other), text):
+                    check.violation("%s multi-file output of crate %s defines `%s` but still refers to the Rust name `%s`" % (lang, c, defined, other),
+                                    case={"lang": lang, "sources": texts, "renames": plan}, impl=ra, model=ma, failing_input=True)
+                    return
+        if ma != ra and mismatch is None and "ambiguous" not in ma:
+            mismatch = (lang, texts, ma, ra)
+    if mismatch:
+        lang, texts, ma, ra = mismatch
+        check.violation("%s multi-file generation differs from the model on same-named renamed types" % lang,
+                        case={"lang": lang, "sources": texts}, impl=ra, model=ma, failing_input=False,
+                        broken="correspondence L2 reconcile across crates (theorems TsV.C09.C09_reconcile_*)")
+
+
 def classes_of(c):
     return sorted(set().union(*c["expected"].values())) if c["expected"] else []
 
@@ -677,6 +733,8 @@ def run(check):
             check.sample({"lang": c["lang"], "prefix": c["pfx"], "source": c["source"], "undefined_references": {k: sorted(v) for k, v in c["expected"].items()}})
     report(check, problems)
     replay_witnesses(check)
+    if not check.violations:
+        multi_part(check)
     check.assumptions += [
         "scope of the theorems: single-file mode, no type mappings / type overrides / decorators, Go without uppercase_acronyms, "
         "consts excluded (the property text does not list const types; their types are not reconciled at all)",
